@@ -143,6 +143,8 @@ def sign_symmetry(ctx, T, cases):
         lines += [oc.exe_line(c, 'RUN'), oc.exe_line(m, 'RUN')]
     outs = T.H(lines)
     for i, c in enumerate(cases):
+        if oc.NOTRUN in (outs[2 * i], outs[2 * i + 1]):
+            continue
         a, b = oc.parse_exe(outs[2 * i]), oc.parse_exe(outs[2 * i + 1])
         ctx.count('evaluations', 1)
         if not (a['ok'] and b['ok']):
@@ -163,6 +165,8 @@ def direction_independence(ctx, T, rng, cases):
     outs = T.H(lines)
     olines, keep = [], []
     for i, c in enumerate(cases):
+        if oc.NOTRUN in (outs[2 * i], outs[2 * i + 1]):
+            continue
         a, b = oc.parse_exe(outs[2 * i]), oc.parse_exe(outs[2 * i + 1])
         if not (a['ok'] and b['ok']):
             oc.viol(ctx, 'offset.crash-or-exception', 'C07 direction: harness answered %s / %s' % (outs[2 * i][:200], outs[2 * i + 1][:200]),
